@@ -2,13 +2,12 @@
    Statements only; proofs in proofs/DecProofs.v.  decode_items is the single model of decode() that
    Decode, DecodeViewBox and Disassemble project; byte strings are arbitrary lists (no well-formedness
    hypothesis is needed for these theorems).
-   Pending (kept visible): prefix_monotone — forall a b, the calls delivered for a are a prefix of the
-   calls delivered for a ++ b.  The correspondence run checks it on every truncation of generated
-   streams; the proof needs suffix-independence lemmas for every reader and is not finished.
+   prefix_monotone (proofs/Prefix.v): for all byte strings a, b and all options, the calls delivered for a
+   are a prefix of the calls delivered for a ++ b — whether either decode succeeds or fails.
    Termination of the Go loops is a fact about Go: what is proved is that the model never runs out of
    its fuel (= input length), i.e. every iteration consumes at least one byte. *)
 From Coq Require Import ZArith Bool List.
-From IVG Require Import SF NumCodec Color Calls Decoder DecProofs.
+From IVG Require Import SF NumCodec Color Calls Decoder DecProofs Prefix.
 Import ListNotations.
 Local Open Scope Z_scope.
 
@@ -36,6 +35,14 @@ Theorem dec_ops_fuel_suffices : forall fuel drawing b its o, (length b <= fuel)%
   (o = Done -> lbytes its = b) /\ (exists t, b = lbytes its ++ t).
 Proof. exact DecProofs.dec_ops_ok. Qed.
 Print Assumptions dec_ops_fuel_suffices.
+
+Theorem prefix_monotone : forall os a b, is_prefix (fst (decode_calls os a)) (fst (decode_calls os (a ++ b))).
+Proof. exact Prefix.decode_prefix_monotone. Qed.
+Print Assumptions prefix_monotone.
+
+Theorem truncation_prefix : forall os b k, is_prefix (fst (decode_calls os (firstn k b))) (fst (decode_calls os b)).
+Proof. exact Prefix.decode_truncation_prefix. Qed.
+Print Assumptions truncation_prefix.
 
 Example ex_truncated : decode_calls [] [137; 73; 86; 71; 0; 192; 128] = ([CReset default_viewbox default_palette], Fail EInvalidNumber).
 Proof. vm_compute. reflexivity. Qed.
